@@ -56,6 +56,12 @@ def state_sig(v, seen=None, depth=0):
     if isinstance(v, list): return tuple(state_sig(x, seen, depth + 1) for x in v)
     d = getattr(v, '__dict__', None)
     if d is not None: return (type(v).__name__, tuple((k, state_sig(x, seen, depth + 1)) for k, x in sorted(d.items()) if k != 'f'))
+    sl = getattr(type(v), '__slots__', None)
+    if sl:
+        # model objects with __slots__ (iterators over a parse tree ...): their scalar fields are part of the state,
+        # otherwise an advancing iterator looks like a loop that makes no progress
+        return (type(v).__name__, tuple((k, state_sig(getattr(v, k, None), seen, depth + 1)) for k in sl
+                                        if isinstance(getattr(v, k, None), (int, str, bool, float, type(None)))))
     return (type(v).__name__,)
 class EndPath(Exception):
     """a stub ends the path normally (what lies beyond is outside the harness's claim)"""
